@@ -55,7 +55,7 @@ pub fn strategy() -> BoxedStrategy<Case> {
                 let mut total = 0u64;
                 for s in f.content.segs.iter_mut() {
                     let l = match s {
-                        Seg::Data(l, _) | Seg::Hole(l) | Seg::Zero(l) => l,
+                        Seg::Data(l, _) | Seg::Hole(l) | Seg::Zero(l) | Seg::PreData(l, _, _) => l,
                     };
                     if total + *l > max {
                         *l = max - total;
